@@ -61,6 +61,37 @@ type C07Plan struct {
 	Cons       []C07Cons       `json:"cons"`
 	Batch      int             `json:"batch"`
 	Sr         bool            `json:"sr,omitempty"` // interleave RTCP sender reports
+	Custom     *C07Custom      `json:"custom,omitempty"` // Transport == "custom": the customize-pub API
+	Ps         *C07Ps          `json:"ps,omitempty"`     // Transport == "gb_udp" | "gb_tcp": GB28181 PS over RTP
+}
+
+// C07Custom: how the customize-pub caller hands frames over.
+type C07Custom struct {
+	Annexb bool  `json:"annexb"`  // video as Annex-B instead of the default AVCC
+	Adts   bool  `json:"adts"`    // AAC with ADTS headers instead of raw + FeedAudioSpecificConfig
+	BaseMs int64 `json:"base_ms"` // timestamp of the first frame
+}
+
+// C07Ps: one PS packing of the frames.
+type C07Ps struct {
+	PesMax    int  `json:"pes_max"`     // PES payload limit (a frame larger than this spans several PES packets)
+	Dts       bool `json:"dts"`         // PES headers carry DTS (= PTS) as well
+	PtsOnCont bool `json:"pts_on_cont"` // continuation PES packets of a frame repeat the PTS
+	HdrStuff  int  `json:"hdr_stuff"`   // stuffing bytes in PES headers
+	PackStuff int  `json:"pack_stuff"`  // stuffing bytes in pack headers
+	SysHdr    bool `json:"sys_hdr"`     // system header in front of each PSM
+	Start3    bool `json:"start3"`      // 3-byte start codes on the non-first slices of a frame
+	PsmAll    bool `json:"psm_all"`     // PSM in every pack instead of only in key-frame packs
+}
+
+func (p *C07Plan) kind() string {
+	switch p.Transport {
+	case "custom":
+		return "custom"
+	case "gb_udp", "gb_tcp":
+		return "gb"
+	}
+	return "rtsp"
 }
 
 var aacRates = []int{96000, 88200, 64000, 48000, 44100, 32000, 24000, 22050, 16000, 12000, 11025, 8000, 7350}
@@ -80,9 +111,9 @@ func (p *C07Plan) clock(track int) int {
 
 func genC07Plan(r *sim.Rng, tier string) C07Plan {
 	var p C07Plan
-	p.Conf = LalConf{RtmpGop: r.Intn(3), FlvEnable: true, FlvGop: r.Intn(3), RtspEnable: true, NoHook: true}
+	p.Conf = LalConf{RtmpGop: r.Intn(3), FlvEnable: true, FlvGop: r.Intn(3), RtspEnable: true, NoHook: true, ApiEnable: true}
 	p.Sched = GenSched(r, tier == "thorough")
-	p.Transport = []string{"tcp", "udp"}[r.Intn(2)]
+	p.Transport = []string{"tcp", "udp", "tcp", "udp", "custom", "gb_udp", "gb_udp", "gb_tcp"}[r.Intn(8)]
 	switch r.Intn(10) {
 	case 0:
 		p.Video, p.Audio = "avc", ""
@@ -101,7 +132,20 @@ func genC07Plan(r *sim.Rng, tier string) C07Plan {
 			p.Audio = "pcmu"
 		case 2:
 			p.Audio = "opus"
+			if p.kind() == "gb" {
+				p.Audio = "pcma" // PS carries AAC and G.711 only
+			}
 		}
+	}
+	switch p.kind() {
+	case "custom":
+		p.Custom = &C07Custom{Annexb: r.Bool(0.5), Adts: r.Bool(0.5), BaseMs: int64(r.Intn(1 << 24))}
+		if r.Bool(0.3) {
+			p.Custom.BaseMs = 0
+		}
+	case "gb":
+		p.Ps = &C07Ps{PesMax: []int{65535, 65535, 8000, 1400, 300}[r.Intn(5)], Dts: r.Bool(0.3), PtsOnCont: r.Bool(0.5), HdrStuff: []int{0, 0, 1, 3}[r.Intn(4)],
+			PackStuff: []int{0, 0, 2, 7}[r.Intn(4)], SysHdr: r.Bool(0.7), Start3: r.Bool(0.3), PsmAll: r.Bool(0.2)}
 	}
 	p.AacSrIdx = r.Intn(len(aacRates))
 	if r.Bool(0.4) {
@@ -134,6 +178,9 @@ func genC07Plan(r *sim.Rng, tier string) C07Plan {
 	case "aac":
 		astep = 1024
 		alen = func() int { return 8 + r.Intn(700) }
+		if r.Bool(0.2) {
+			alen = func() int { return 1 + r.Intn(40) } // near-silent frames
+		}
 	case "opus":
 		astep = 960
 		alen = func() int { return 4 + r.Intn(300) }
@@ -146,6 +193,9 @@ func genC07Plan(r *sim.Rng, tier string) C07Plan {
 	vi, gen := 0, 0
 	gop := 5 + r.Intn(25)
 	inBandEvery := []int{0, 1, 2, 3}[r.Intn(4)]
+	if p.kind() != "rtsp" {
+		p.SdpParams = false // no SDP: parameter sets travel in-band only
+	}
 	if !p.SdpParams && inBandEvery == 0 {
 		inBandEvery = 1
 	}
@@ -262,6 +312,8 @@ type c07Src struct {
 	order  [2][]int          // per track: send order (indices into pkts, with duplicates)
 	sentTo [2]int            // how many entries of order were sent
 	pktEnd [2][]int          // per track: for each unit the index (in pkts) of its last packet
+	raw    [][][]byte        // per frame: every NAL unit (video) or the one audio frame, as the publisher has them
+	lastFr [2]int            // per track: index of its last frame (-1 none)
 }
 
 func (p *C07Plan) paramSets(gen int) (vps, sps, pps []byte) {
@@ -273,7 +325,12 @@ func (p *C07Plan) paramSets(gen int) (vps, sps, pps []byte) {
 }
 
 func buildC07(p *C07Plan) *c07Src {
-	s := &c07Src{plan: p, gens: map[int][3][]byte{}, sdpGen: -1}
+	s := &c07Src{plan: p, gens: map[int][3][]byte{}, sdpGen: -1, lastFr: [2]int{-1, -1}}
+	kind := p.kind()
+	var ps *psPacker
+	if kind == "gb" {
+		ps = newPsPacker(p)
+	}
 	cur := -1
 	if p.SdpParams && p.Video != "" {
 		cur = 0
@@ -301,11 +358,21 @@ func buildC07(p *C07Plan) *c07Src {
 		if f.Track == 1 {
 			data := media.Body(7, 1, fi, f.N)
 			s.units[1] = append(s.units[1], c07Unit{Track: 1, Data: data, Ts: f.Ts, Frame: fi})
-			for _, q := range pk[1].PackAudio(data, uint32(uint64(p.TsStart[1])+f.Ts)) {
-				idx = append(idx, len(s.pkts[1]))
-				s.pkts[1] = append(s.pkts[1], q)
+			s.raw = append(s.raw, [][]byte{data})
+			s.lastFr[1] = fi
+			switch kind {
+			case "rtsp":
+				for _, q := range pk[1].PackAudio(data, uint32(uint64(p.TsStart[1])+f.Ts)) {
+					idx = append(idx, len(s.pkts[1]))
+					s.pkts[1] = append(s.pkts[1], q)
+				}
+				s.pktEnd[1] = append(s.pktEnd[1], len(s.pkts[1])-1)
+			case "gb":
+				for _, q := range ps.audio(data, f.Ts, fi == 0) {
+					idx = append(idx, len(s.pkts[0]))
+					s.pkts[0] = append(s.pkts[0], q)
+				}
 			}
-			s.pktEnd[1] = append(s.pktEnd[1], len(s.pkts[1])-1)
 			s.fpk = append(s.fpk, idx)
 			continue
 		}
@@ -351,10 +418,24 @@ func buildC07(p *C07Plan) *c07Src {
 		if got&3 == 3 {
 			cur = f.Gen
 		}
-		before := len(s.pkts[0])
-		for _, q := range pk[0].PackVideoAU(nals, uint32(uint64(p.TsStart[0])+f.Ts)) {
-			idx = append(idx, len(s.pkts[0]))
-			s.pkts[0] = append(s.pkts[0], q)
+		s.raw = append(s.raw, nals)
+		s.lastFr[0] = fi
+		anyKey := false
+		for _, ni := range fwd {
+			n := f.Nals[ni]
+			anyKey = anyKey || (p.Video == "avc" && n.T == 5) || (p.Video == "hevc" && n.T >= 16 && n.T <= 23)
+		}
+		switch kind {
+		case "rtsp":
+			for _, q := range pk[0].PackVideoAU(nals, uint32(uint64(p.TsStart[0])+f.Ts)) {
+				idx = append(idx, len(s.pkts[0]))
+				s.pkts[0] = append(s.pkts[0], q)
+			}
+		case "gb":
+			for _, q := range ps.video(nals, f.Ts, anyKey, fi == 0) {
+				idx = append(idx, len(s.pkts[0]))
+				s.pkts[0] = append(s.pkts[0], q)
+			}
 		}
 		for _, ni := range fwd {
 			n := f.Nals[ni]
@@ -363,7 +444,6 @@ func buildC07(p *C07Plan) *c07Src {
 			// the unit is complete, at the latest, with the frame's last packet
 			s.pktEnd[0] = append(s.pktEnd[0], len(s.pkts[0])-1)
 		}
-		_ = before
 		s.fpk = append(s.fpk, idx)
 	}
 	if _, ok := s.gens[0]; !ok && s.sdpGen == 0 {
@@ -382,7 +462,11 @@ func buildC07(p *C07Plan) *c07Src {
 			evs = append(evs, ev{float64(i), i})
 		}
 		for fi, f := range p.Faults {
-			if f.Track != t || n < 3 {
+			ft := f.Track
+			if kind == "gb" {
+				ft = 0 // one RTP stream carries both tracks
+			}
+			if ft != t || n < 3 {
 				continue
 			}
 			at := 1 + (f.At-1)%(n-1)
@@ -801,32 +885,40 @@ func runC07(k *sim.Kernel, p C07Plan) {
 		}
 	}
 	k.Settle()
-	pub := actors.NewRtspClient(k, "pub", "pub", fmt.Sprintf("rtsp://127.0.0.1:%d/live/%s", PortRtsp, stream), p.Transport == "tcp")
-	pub.Sdp = src.sdp()
-	pub.ClientPort = 20000
-	pub.Tracks = actors.ParseSdpTracks(pub.Sdp)
-	if !pub.Connect(PortRtsp, 1) {
-		k.Abort("rtsp listener missing")
+	var pub c07Pub
+	kind := p.kind()
+	switch kind {
+	case "custom":
+		pub = &c07CustomPub{}
+	case "gb":
+		pub = &c07GbPub{}
+	default:
+		pub = &c07RtspPub{}
 	}
-	k.Settle()
-	if !pub.Ready {
-		k.Violate("C07.publish-refused", "a well-formed RTSP publish (%s, video=%q audio=%q) was not accepted: %s, statuses %v, closed=%v", p.Transport, p.Video, p.Audio, pub.Failed, pub.Status, pub.Closed)
-	}
+	pub.start(k, w, src, stream)
 	sent := [2]int{}
 	sendFrame := func(fi int) {
+		if kind == "custom" {
+			pub.sendFrame(k, src, fi)
+			return
+		}
 		f := p.Frames[fi]
 		t := f.Track
+		if kind == "gb" {
+			t = 0
+		}
 		n := len(src.fpk[fi])
 		for j := 0; j < n && sent[t] < len(src.order[t]); j++ {
 			idx := src.order[t][sent[t]]
 			sent[t]++
-			if !pub.SendRtp(src.trackIndex(t), src.pkts[t][idx]) {
-				k.Violate("C07.transport-gone", "the publisher's transport vanished while publishing (closed=%v)", pub.Closed)
+			if !pub.sendPkt(k, src, t, src.pkts[t][idx]) {
+				gone, why := pub.gone()
+				k.Violate("C07.transport-gone", "the publisher's transport vanished while publishing (closed=%v %s)", gone, why)
 			}
 		}
-		if p.Sr && fi%7 == 3 {
+		if rp, ok := pub.(*c07RtspPub); ok && p.Sr && fi%7 == 3 {
 			pkt := src.pkts[t][src.fpk[fi][0]]
-			pub.SendRaw(src.trackIndex(t), true, rtpc.SenderReport(pkt.Ssrc, 1000+uint32(fi), 0, pkt.Ts, uint32(sent[t]), 0))
+			rp.c.SendRaw(src.trackIndex(t), true, rtpc.SenderReport(pkt.Ssrc, 1000+uint32(fi), 0, pkt.Ts, uint32(sent[t]), 0))
 		}
 	}
 	for fi := range p.Frames {
@@ -845,13 +937,13 @@ func runC07(k *sim.Kernel, p C07Plan) {
 	// the tail of the send orders (delayed packets and duplicates that fall behind the last frame)
 	for t := 0; t < 2; t++ {
 		for sent[t] < len(src.order[t]) {
-			pub.SendRtp(src.trackIndex(t), src.pkts[t][src.order[t][sent[t]]])
+			pub.sendPkt(k, src, t, src.pkts[t][src.order[t][sent[t]]])
 			sent[t]++
 		}
 	}
 	k.Settle()
-	if pub.Closed {
-		k.Violate("C07.publisher-dropped", "lal closed the publishing session of a well-formed stream (statuses %v)", pub.Status)
+	if gone, why := pub.gone(); gone {
+		k.Violate("C07.publisher-dropped", "lal closed the publishing session of a well-formed stream (%s)", why)
 	}
 
 	// what can no longer be withheld: single-track streams forward immediately; with two tracks a unit may wait
@@ -868,7 +960,14 @@ func runC07(k *sim.Kernel, p C07Plan) {
 		}
 		for i, u := range src.units[t] {
 			ms := float64(u.Ts) * 1000 / float64(p.clock(t))
-			must[t][i] = !both || newestOther >= ms+2
+			switch kind {
+			case "custom":
+				must[t][i] = true // handed over frame by frame, nothing to wait for
+			case "gb":
+				must[t][i] = u.Frame != src.lastFr[t] // a PS access unit is complete when the next one of its track starts
+			default:
+				must[t][i] = !both || newestOther >= ms+2
+			}
 		}
 	}
 	for i, c := range cons {
@@ -899,12 +998,8 @@ func runC07(k *sim.Kernel, p C07Plan) {
 	if len(p.Faults) > 0 {
 		k.Fault("rtp_reorder_or_dup")
 	}
-	if p.Transport == "udp" {
-		k.Probe("c07_udp")
-	} else {
-		k.Probe("c07_tcp")
-	}
-	pub.Leave(false)
+	k.Probe("c07_" + p.Transport)
+	pub.leave(k)
 	k.Settle()
 }
 
